@@ -26,12 +26,14 @@ def isChildOf (p d : Path) : Bool := parent p == some d
 
 /-! ### byte-vector helpers (`Vec::resize`, `copy_from_slice`) -/
 
-def resize (b : Bytes) (n : Nat) : Bytes := b.take n ++ List.replicate (n - b.length) 0
+/-- `Vec::resize(n, 0)`: truncate or zero-extend to length `n` -/
+def resize (b : Bytes) (n : Nat) : Bytes := (List.range n).map fun i => b.getD i 0
 
-/-- write `d` at `off`, extending with zeros (apply_op_to_persisted / torn writes) -/
+/-- write `d` at `off`, extending with zeros (`resize` + `copy_from_slice` in
+    apply_op_to_persisted / torn writes) -/
 def writeAt (b : Bytes) (off : Nat) (d : Bytes) : Bytes :=
-  let b' := if off + d.length > b.length then resize b (off + d.length) else b
-  b'.take off ++ d ++ b'.drop (off + d.length)
+  (List.range (max b.length (off + d.length))).map fun i =>
+    if off ≤ i ∧ i < off + d.length then d.getD (i - off) 0 else b.getD i 0
 
 /-- overlay `d` at `off` onto `b` *without* changing the length of `b` (read_file overlay) -/
 def overlayClip (b : Bytes) (off : Nat) (d : Bytes) : Bytes :=
@@ -397,21 +399,20 @@ def ofExcept (st : St) (r : Except Err Fs) : St × Obs :=
   | .ok fs => ({ st with fs := fs }, .ok)
   | .error e => (st, .err e)
 
-/-- `OpenOptions::open` on the fs part -/
+/-- `OpenOptions::open`, existence / creation part -/
+def openCreate (s : Fs) (p : Path) (fl : Flags) : Except Err Fs :=
+  if fileExists s p then
+    if fl.n then .error .alreadyexists else .ok s
+  else if fl.c || fl.n then
+    if !(parentExists s p) then .error .notfound
+    else .ok { s with pending := s.pending ++ [.createFile p] }
+  else .error .notfound
+
+/-- `OpenOptions::open` on the fs part (truncate is a pending `SetLen 0`) -/
 def openFs (s : Fs) (p : Path) (fl : Flags) : Except Err Fs :=
-  let fe := fileExists s p
-  if fl.n && fe then .error .alreadyexists
-  else
-    let r : Except Err Fs :=
-      if !fe then
-        if fl.c || fl.n then
-          if !(parentExists s p) then .error .notfound
-          else .ok { s with pending := s.pending ++ [.createFile p] }
-        else .error .notfound
-      else .ok s
-    match r with
-    | .error e => .error e
-    | .ok s1 => if fl.t && fl.w then .ok { s1 with pending := s1.pending ++ [.setLen p 0] } else .ok s1
+  match openCreate s p fl with
+  | .error e => .error e
+  | .ok s1 => .ok (if fl.t && fl.w then { s1 with pending := s1.pending ++ [.setLen p 0] } else s1)
 
 /-- `write_at_internal` on an open handle (after the writable check) -/
 def writeFs (s : Fs) (p : Path) (off : Nat) (d : Bytes) (coin : Bool) : Fs :=
@@ -468,8 +469,6 @@ def rmdirAll (s : Fs) (p : Path) : Except Err Fs :=
   else match rmContents 8 s p with
     | .error e => .error e
     | .ok s1 => rmdir s1 p
-
-def Int.toNatClamp (i : Int) : Nat := i.toNat
 
 /-- one shim call -/
 def step (cfg : Cfg) (st : St) (op : Op) (ora : Ora) : St × Obs :=
